@@ -24,7 +24,7 @@ RULE = ("case = product graph (3-6 names x 1-3 versions, required/optional edges
         "expanded form (exact block + inexact branch); 'cf' stream conflict-free by construction, "
         "'arb' stream with arbitrary specs incl. diamond conflicts) + build-time setup of the top product + expansion of its "
         "table (CLI defaults) + 0-4 syntactic/option variants expanded in the same environment + random evolution "
-        "(new lower/higher versions, current moved, absent products appearing); 12 % of the graphs have a version NAMED like a recognised tag (current, beta) — the build version in the cf stream — while that tag is assigned to another version of the product + exact re-setup; a case is non-trivial when "
+        "(new lower/higher versions, current moved, absent products appearing); 7 % of the cases run the history `dependency listings, redeclaration of a nested dependency, build, expansion` in one process; every exact replay is repeated through a second entry point (eups.setup with/without version and exact_version=True, setup --exact); 12 % of the graphs have a version NAMED like a recognised tag (current, beta) — the build version in the cf stream — while that tag is assigned to another version of the product + exact re-setup; a case is non-trivial when "
         "the build succeeded and set up at least one dependency; distinct = distinct digests of (graph, top table, options)")
 TRUSTED = ["CPython `re` on the six patterns of expandTableFile, `str.split/strip/join`, `%-15s` formatting (hand-translated, "
            "exercised by the text comparison on every run, not verified)",
@@ -44,7 +44,7 @@ ASSUMPTIONS = ["version expressions in generated tables are well formed, so Eups
 MIRRORS = [("python/eups/table.py", "expandTableFile"), ("python/eups/table.py", "Table.actions"), ("python/eups/table.py", "Table._read"),
            ("python/eups/table.py", "Table._rewrite"), ("python/eups/table.py", "Table.__init__"), ("python/eups/table.py", "Action.__init__"),
            ("python/eups/table.py", "Action.processArgs"), ("python/eups/VersionParser.py", "*"),
-           ("python/eups/app.py", "expandTableFile"), ("python/eups/app.py", "getDependencies"),
+           ("python/eups/app.py", "expandTableFile"), ("python/eups/app.py", "setup"), ("python/eups/app.py", "getDependencies"),
            ("python/eups/Eups.py", "Eups.getDependentProducts"), ("python/eups/Eups.py", "Eups.selectVRO"),
            ("python/eups/Eups.py", "Eups.makeVroExact"), ("python/eups/Eups.py", "Eups.findSetupProduct"), ("python/eups/Eups.py", "Eups.setup"),
            ("python/eups/Eups.py", "Eups.findSetupVersion"), ("python/eups/cmd.py", "ExpandtableCmd.execute")]
@@ -347,6 +347,63 @@ def child_exact_actions(env, path):
             return {"flavor": E.flavor, "acts": "EXC:" + type(ex).__name__}
 
 
+REPLAY_MODES = ["object", "api_noversion", "api_version", "cli_exact"]
+
+
+def child_replay(env, mode, name, version):
+    """The exact replay through another entry point, in a process of its own (Eups.__init__ has a shared default `setupType=[]`):
+    api_noversion = eups.setup(name, exact_version=True) (eups.app.setup builds the Eups itself; the current tag names the version),
+    api_version = eups.setup(name, version, exact_version=True), cli_exact = `setup --exact name version` through setupcmd."""
+    import eups
+    import eups.setupcmd
+    os.environ.clear()
+    os.environ.update(env)
+    with _quiet(), contextlib.redirect_stdout(io.StringIO()):
+        try:
+            if mode == "api_noversion":
+                cmds = eups.setup(name, exact_version=True)
+            elif mode == "api_version":
+                cmds = eups.setup(name, version, exact_version=True)
+            else:
+                rc = eups.setupcmd.EupsSetup(args=["--exact", name, version], toolname="setup").run()
+                cmds = ["false"] if rc not in (0, None) else []
+        except Exception as ex:  # noqa
+            return {"ok": "EXC:" + type(ex).__name__, "env": dict(os.environ)}
+    return {"ok": "false" not in cmds, "env": dict(os.environ)}
+
+
+def child_history(env, stack, ud, case, path, opts, names):
+    """One long-lived process: dependency listings of the top product (topological / cycle-checking, API and `eups list`) in the
+    database as it was BEFORE a nested dependency was redeclared; the redeclaration (a newer version with one more dependency,
+    current moved); then the build-time setup and the expansion, all in this process."""
+    import eups
+    import eups.cmd
+    os.environ.clear()
+    os.environ.update(env)
+    ph = case["pre_history"]
+    topn, topv = case["top"]
+    done = []
+    with _quiet(), contextlib.redirect_stdout(io.StringIO()):
+        for kind in ph["list"]:
+            try:
+                if kind == "api_topological":
+                    done.append([kind, len(eups.getDependencies(topn, topv, cli_eups(), topological=True))])
+                elif kind == "api_cycles":
+                    E = cli_eups()
+                    done.append([kind, len(E.getDependentProducts(E.findProduct(topn, topv), checkCycles=True))])
+                else:
+                    rc = eups.cmd.EupsCmd(args=["list", "--nolocks", "--dependencies", "--topological", topn, topv], toolname="eups").run()
+                    done.append([kind, rc])
+            except Exception as ex:  # noqa
+                done.append([kind, "EXC:" + type(ex).__name__])
+    L.redeclare(stack, ud, case)
+    b = child_setup(env, topn, topv, case["inexact_build"])
+    out = {"build": b, "listings": done}
+    if b.get("ok") is True:
+        out["exp"] = child_expand(b["env"], path, opts, names)
+    return out
+
+
 # ---- one case on the real code --------------------------------------------------------------------------
 
 class Worker:
@@ -360,6 +417,15 @@ class Worker:
         self.base["PATH"] = "/usr/bin:/bin"
         self.vdir = os.path.join(self.root, "variants")
         os.makedirs(self.vdir)
+        # user data of the API / command-line replays: eups.app.setup and setupcmd construct Eups(readCache=False), which crashes
+        # (TypeError in _productDir(None)) with defaultProduct["name"] = None and a non-empty database -> the empty string there
+        self.ud2 = os.path.join(self.root, "userdataR")
+        os.makedirs(self.ud2)
+        with open(os.path.join(self.ud, "startup.py")) as f:
+            txt = f.read().replace('defaultProduct["name"] = None', 'defaultProduct["name"] = ""')
+        with open(os.path.join(self.ud2, "startup.py"), "w") as f:
+            f.write(txt)
+        self.base2 = dict(self.base, EUPS_USERDATA=self.ud2)
 
     def close(self):
         common.rmtree(self.root)
@@ -377,7 +443,19 @@ def run_case(w, case):
     topn, topv = case["top"]
     L.install(w.stack, w.ud, case)
     res = {"exps": []}
-    b = call(child_setup, w.base, topn, topv, case["inexact_build"])
+    hist = None
+    if case.get("pre_history"):
+        L.hide_redeclared(w.stack, w.ud, case)
+        hist = call(child_history, w.base, w.stack, w.ud, case, L.table_path(w.stack, topn, topv), case["opts"], case["names"] + L.ABSENT)
+        # (the Eups objects of the listings live to the end of that process and may persist their view of the stack -- taken before
+        # the redeclaration -- into the user's cache files on the way out: the later, separate processes start from clean caches)
+        L.drop_caches(w.ud)
+        if "child" in hist:
+            return {"exps": [], "build_ok": "CHILD:%r" % (hist["child"],)}
+        b = hist["build"]
+        res["listings"] = hist["listings"]
+    else:
+        b = call(child_setup, w.base, topn, topv, case["inexact_build"])
     res["build_ok"] = b.get("ok")
     if b.get("ok") is not True:
         return res
@@ -406,7 +484,7 @@ def run_case(w, case):
     for p, o in jobs:
         with open(p) as f:
             text = f.read()
-        r = call(child_expand, env1, p, o, names)
+        r = hist["exp"] if (hist is not None and p == tpath and "exp" in hist) else call(child_expand, env1, p, o, names)
         r["text"] = text
         r["opts"] = o
         mode = case.get("cli_mode", "stdout")
@@ -430,6 +508,13 @@ def run_case(w, case):
         res["exact_ok"] = e.get("ok")
         res["exact_type"] = e.get("setupType")
         res["exact_records"] = L.records(e["env"]) if "env" in e else None
+        # the same replay through another entry point (API without version, API with version, `setup --exact`)
+        mode = case.get("replay_mode", "object")
+        if mode == "api_noversion" and L.final_current(case, topn) != topv:
+            mode = "api_version"
+        if mode != "object":
+            e2 = call(child_replay, w.base2, mode, topn, topv)
+            res["replay2"] = {"mode": mode, "ok": e2.get("ok"), "records": L.records(e2["env"]) if "env" in e2 else None, "child": e2.get("child")}
     return res
 
 
@@ -660,12 +745,18 @@ def complete_env(case, built):
         # set up before -- not for a product reached on another path, which then lacks a dependency
         exempt = exempt | {l["name"] for l in lines if l["k"] == "unsetup"}
         inactive = L.inactive_setup_lines(lines)
+        unset_j = {l["name"] for l in lines if l["k"] == "unsetup" and "-j" in (l.get("flags") or [])}
         for l in lines:
             fl = l.get("flags") or []
             if l["k"] != "setup" or "--external" in fl or any(l is x for x in inactive):
                 continue
             q = l["name"]
             if q not in built and q in exempt:
+                # taken away again with -j by this very table: the products below q are still this table's (the static listing keeps
+                # them), so they must be there -- e.g. not taken away by yet another table
+                if (q in unset_j and q in (case.get("build") or {}) and "-j" not in fl
+                        and not ok(q, case["build"][q], seen, exempt)):
+                    return False
                 continue
             if q not in built:
                 # a missing optional product is fine only if it could not be set up at all; in the conflict-free stream
@@ -726,6 +817,11 @@ def oracle_case(case, res):
     if "exact" not in main["text"]:
         for detail in oracle_exact_actions(case, res):
             yield ("exact_actions", "D74" if nested_else else ("D4" if empty_exact else None), detail, 0)
+    r2 = res.get("replay2")
+    if r2 and (r2.get("ok") != res.get("exact_ok") or r2.get("records") != res.get("exact_records")):
+        # every entry point of an exact setup of the same product version must read the expanded table the same way
+        yield ("exact_reproduces_entry", None, "exact replay through %s: ok=%r records=%r; through Eups.setup after selectVRO: ok=%r records=%r"
+               % (r2.get("mode"), r2.get("ok"), r2.get("records"), res.get("exact_ok"), res.get("exact_records")), 0)
     if cf:
         if res.get("exact_ok") is not True or res.get("exact_records") != built:
             xr = res.get("exact_records") or {}
@@ -898,6 +994,16 @@ def evaluate(ctx, cases):
         ctx.hist("stream=%s" % c["stream"])
         if c.get("tag_named"):
             ctx.hist("tag_named_version=%s" % c["tag_named"]["name"])
+        if c.get("pre_history"):
+            ctx.hist("process_history=listings_redeclare_build_expand")
+            for kind, what in r.get("listings") or []:
+                ctx.hist("history_listing=%s%s" % (kind, "" if not isinstance(what, str) else ":" + what))
+            if r.get("build_ok") is True and c["pre_history"]["extra"] in r.get("built", {}):
+                ctx.hist("history_extra_dependency_set_up")
+        if r.get("replay2"):
+            if r["replay2"].get("child"):
+                raise common.InfraError("replay child failed: %r" % (r["replay2"]["child"],))
+            ctx.hist("replay_entry=%s" % r["replay2"]["mode"])
         if c.get("expanded_deps"):
             ctx.hist("has_expanded_dependency_tables")
         for _, _, ls in c["decl"]:
@@ -1187,6 +1293,11 @@ def run(ctx):
             raise common.InfraError("degenerate distribution: only %d of %d builds succeeded" % (h.get("build=True", 0), ctx.evaluations))
         if ctx.evaluations >= 300 and sum(v for k, v in h.items() if k.startswith("tag_named_version_set_up=")) < 3:
             raise common.InfraError("degenerate distribution: a version named like a recognised tag was set up in fewer than 3 of %d cases" % ctx.evaluations)
+        if ctx.evaluations >= 300 and h.get("history_extra_dependency_set_up", 0) < 3:
+            raise common.InfraError("degenerate distribution: the history `listings, redeclare, build, expand` in one process set the extra "
+                                    "dependency up in fewer than 3 of %d cases" % ctx.evaluations)
+        if ctx.evaluations >= 300 and not all(h.get("replay_entry=%s" % m) for m in REPLAY_MODES[1:]):
+            raise common.InfraError("degenerate distribution: an entry point of the exact replay was never exercised")
         if ctx.evaluations >= 300 and not any(k.startswith("top_table_unsetup_line=") for k in h):
             raise common.InfraError("degenerate distribution: no unsetup line in an expanded table among %d cases" % ctx.evaluations)
         nb = h.get("hyp_blocksOK=True", 0) + h.get("hyp_blocksOK=False", 0)
